@@ -127,8 +127,8 @@ contract(G + "grid_pixel_centres_2d_slim_from", props=["C02", "C12"],
          let={**GS, "N": "grid_scaled_2d_slim.shape[0]", "S": "grid_scaled_2d_slim"},
          requires=["sy > 0", "sx > 0", "H >= 1", "W >= 1", "S.shape[1] == 2"],
          ensures=["result.shape[0] == N", "result.shape[1] == 2",
-                  "forall(0, N, lambda k: forall(0, H, lambda i: implies(" + _INY + ", result[k, 0] == i), pat=((result[k, 0], toreal(i) * sy),)))",
-                  "forall(0, N, lambda k: forall(0, W, lambda j: implies(" + _INX + ", result[k, 1] == j), pat=((result[k, 1], toreal(j) * sx),)))"],
+                  "forall(0, N, lambda k: forall(0, H, lambda i: implies(" + _INY + ", result[k, 0] == i), pat=((result[k, 0], toreal(i)),)))",
+                  "forall(0, N, lambda k: forall(0, W, lambda j: implies(" + _INX + ", result[k, 1] == j), pat=((result[k, 1], toreal(j)),)))"],
          loops={0: {"inv": ["forall(0, slim_index, lambda k: forall(0, H, lambda i: implies(" + _INY + ", grid_pixels_2d_slim[k, 0] == i)))",
                             "forall(0, slim_index, lambda k: forall(0, W, lambda j: implies(" + _INX + ", grid_pixels_2d_slim[k, 1] == j)))"],
                     "assert_at": {0: [
@@ -145,7 +145,7 @@ contract(G + "grid_pixel_indexes_2d_slim_from", props=["C02", "C12"],
          ensures=["result.shape[0] == N",
                   # ... with flattened index i*W + j
                   "forall(0, N, lambda k: forall(0, H, lambda i: forall(0, W, lambda j: implies((" + _INY + ") and (" + _INX + "),"
-                  " result[k] == i * W + j))))"],
+                  " result[k] == i * W + j), pat=((result[k], toreal(i), toreal(j)),))))"],
          loops={0: {"inv": ["forall(0, slim_index, lambda k: forall(0, H, lambda i: forall(0, W, lambda j: implies((" + _INY + ") and (" + _INX + "),"
                             " grid_pixel_indexes_2d_slim[k] == i * W + j))))"],
                     "assert_at": {0: [
